@@ -7,6 +7,7 @@ import subprocess
 
 import common
 from harness import pogen
+from harness import gettext_ref
 
 TRUSTED = [
     'Coq 8.16.1 kernel (coqc, vm_compute); coqchk in thorough tier',
@@ -88,7 +89,8 @@ def content_catalog(rng, po_only_features=True):
 
 def respell(text, rng, wrap=True, blank=True, octal=True, enc='utf-8'):
     """an independent re-spelling of PO text produced by pogen.render: re-wrap msgid/msgstr strings (not header lines),
-    add blank lines, spell some non-ASCII characters as octal escapes of their UTF-8 bytes"""
+    add blank lines, spell some non-ASCII characters as octal or hexadecimal escapes of their bytes (hex escapes of any length: gettext
+    takes every hex digit and keeps the low 8 bits; never right before a literal hex digit, which would be one more digit)"""
     out = []
     in_header = False
     for line in text.split('\n'):
@@ -104,11 +106,26 @@ def respell(text, rng, wrap=True, blank=True, octal=True, enc='utf-8'):
                 # control characters written with a named escape by the renderer, written literally here (a lone CR, TAB, FF, VT, BEL, BS inside a string)
                 RAW = {'r': '\r', 't': '\t', 'a': '\x07', 'b': '\x08', 'f': '\x0c', 'v': '\x0b'}
                 body = re.sub(r'(?<!\\)((?:\\\\)*)\\([rtabfv])', lambda m: (m.group(1) + RAW[m.group(2)]) if rng.random() < 0.7 else m.group(0), body)
-                body = ''.join(('\\%03o' * len(ch.encode(enc))) % tuple(ch.encode(enc)) if (ord(ch) > 127 and rng.random() < 0.7) else ch for ch in body)
+                pieces = []
+                for k, ch in enumerate(body):
+                    if not (ord(ch) > 127 and rng.random() < 0.7):
+                        pieces.append(ch)
+                        continue
+                    bs = ch.encode(enc)
+                    form = rng.random()
+                    if form < 0.6 or body[k + 1:k + 2] in tuple(gettext_ref.HEXD):
+                        pieces.append(('\\%03o' * len(bs)) % tuple(bs))
+                    elif form < 0.8:
+                        pieces.append(''.join(rng.choice(['\\x%02x', '\\x%02X']) % x for x in bs))
+                    else:
+                        pieces.append(''.join('\\x' + rng.choice(['0', '00', '000a', 'FF', '1b3']) + rng.choice(['%02x', '%02X']) % x for x in bs))
+                body = ''.join(pieces)
             if wrap and len(body) > 3 and rng.random() < 0.6:
                 # split at a safe point: not inside an escape sequence
                 cuts = [i for i in range(1, len(body)) if body[i - 1] != '\\' and not (i >= 2 and body[i - 2] == '\\') and not (i >= 3 and body[i - 3] == '\\') and not (i >= 4 and body[i - 4] == '\\') and body[i] != '\\' or False]
                 cuts = [i for i in cuts if '\\' not in body[max(0, i - 4):i]]
+                spans = gettext_ref.escape_spans(body)
+                cuts = [i for i in cuts if not any(a < i < b for (a, b) in spans)]     # a hex escape may be longer than four characters
                 if cuts:
                     c = rng.choice(cuts)
                     out.append(head + '""' if head.strip() else '"%s"' % body[:c])
@@ -168,6 +185,8 @@ def job_po(payload):
             with open(pb, 'wb') as f:
                 f.write(data)
             tb = tags_of(pb)
+            if gettext_ref.has_long_hex(data.decode('latin-1')):
+                name += ':D29'      # the variant spells a hex escape of more than two digits
             transcoded = 'latin2' in name
             fa = [t for t in ta if not (transcoded and t[0] in CHARSET_TAGS)]
             fb = [t for t in tb if not (transcoded and t[0] in CHARSET_TAGS)]
@@ -181,6 +200,12 @@ def job_po(payload):
         return ('error', type(e).__name__ + ': ' + str(e)[:200], [])
     finally:
         shutil.rmtree(d, ignore_errors=True)
+
+
+# msgstr values of the PO-vs-MO probes (UTF-8 file; the escaped bytes spell UTF-8): hex escapes of 1, 2 and more digits, mixed with octal, either
+# case, before a non-hex letter, at the end of the string, after an escaped backslash (a backslash and the literal text x41BC)
+HEX_PROBES = ['a\\x0c3\\x8b', '\\x41C2\\x0BC', '\\x0041', '\\xc3\\xa9', '\\x00c3\\x00A9', '\\xfC3\\251z', '\\303\\x1A9', '\\\\x41BC', '\\\\\\x41C3\\x0A9', '\\x5\\x6',
+              '\\x41\\x42C\\101', '\\x7e\\x07E', '\\xE2\\x82\\xAC', '\\x0e2\\x082\\x0ac!', 'a\\x00c3\\x8Bz']
 
 
 def job_mo(payload):
@@ -251,8 +276,7 @@ def job_mo(payload):
         potc = lambda t: bool(t[1]) and str(t[1][0]).startswith('POT-Creation-Date')
         tp_f = [t for t in tp if not potc(t)]
         tm_f = [t for t in tm if not potc(t)]
-        import re as _re2
-        d29 = bool(_re2.search(r'\\x[0-9a-fA-F]{3}', text))
+        d29 = gettext_ref.has_long_hex(text)
         if sorted(tp_f) != sorted(tm_f):
             res.append(('po-vs-mo' + (':D29' if d29 else ''), [t for t in tp_f if t not in tm_f][:3], [t for t in tm_f if t not in tp_f][:3]))
         if 'withpot' in outs and sorted(tp) != sorted(outs['withpot']):
@@ -396,6 +420,8 @@ def check(ctx):
     shutil.rmtree(os.path.join(common.WORK, 'c17'), ignore_errors=True)
     os.makedirs(os.path.join(common.WORK, 'c17'))
     ctx.stats['tools'] = {t: have(t) for t in ('msgcat', 'msgfmt', 'dpkg-deb', 'dpkg-source')}
+    # D29 is tagged as a finding only while KNOWN_FINDINGS.jsonl lists it as known for this property; afterwards such a failure is a violation
+    d29_known = any(k.get('id') == 'D29' and k.get('property') == ctx.id and k.get('status') == 'known' for k in common.load_known_findings())
     # ---- PO spellings
     n = 150 if ctx.quick() else 4000
     payloads = [(i, pogen.render(content_catalog(rng)), rng.randrange(1 << 30)) for i in range(n)]
@@ -410,7 +436,8 @@ def check(ctx):
             ctx.evaluations += info
             ctx.nontriv(('po', text))
             for (name, only_a, only_b) in diffs:
-                ctx.fail('po-spelling', {'variant': name, 'catalog': text[:2500], 'respell_seed': seed}, 'diagnostics differ between two spellings of one catalog: only original %r ; only variant %r' % (only_a, only_b))
+                ctx.fail('po-spelling', {'variant': name, 'catalog': text[:2500], 'respell_seed': seed}, 'diagnostics differ between two spellings of one catalog: only original %r ; only variant %r' % (only_a, only_b),
+                         finding='D29' if d29_known and name.endswith(':D29') else None)
         elif status == 'error':
             ctx.count('po-error:' + info[:60])
     # ---- MO layouts, PO vs MO
@@ -420,7 +447,10 @@ def check(ctx):
         probe = copy.deepcopy(pogen.base_catalog())
         probe['header_comments'] = []
         probe['entries'] = [{'msgid': 'hex probe', 'msgstr': 'HEXPROBE'}]
-        payloads2.append((n2, pogen.render(probe).replace('HEXPROBE', 'a\\x0cb')))     # D29: msgfmt reads byte 0xCB, the PO loader FF + "b"
+        # hex escapes of more than two digits: msgfmt (like C) takes every hex digit and keeps the low 8 bits; the PO loader must read the same bytes
+        # (D29 before its repair: FF + "b" instead of U+00CB, "A" + "BC" instead of U+00BC ...).  The file is UTF-8: the escaped bytes spell UTF-8.
+        for k, hexprobe in enumerate(HEX_PROBES):
+            payloads2.append((n2 + k, pogen.render(probe).replace('HEXPROBE', hexprobe)))
         results2 = common.pmap('harness.c17', 'job_mo', payloads2, per_case_timeout=300)
         for (i, text), r in zip(payloads2, results2):
             if not isinstance(r, tuple):
@@ -433,7 +463,7 @@ def check(ctx):
                 ctx.nontriv(('mo', text))
                 for (name, only_a, only_b) in diffs:
                     ctx.fail('mo-layout' if name.startswith('mo-layout') else 'po-vs-mo', {'variant': name, 'catalog': text[:2500]},
-                             'diagnostics differ: only first %r ; only second %r' % (only_a, only_b), finding='D29' if name.endswith(':D29') else None)
+                             'diagnostics differ: only first %r ; only second %r' % (only_a, only_b), finding='D29' if d29_known and name.endswith(':D29') else None)
     # ---- Debian packages
     if have('dpkg-deb'):
         for k in range(4 if ctx.quick() else 60):
